@@ -39,4 +39,5 @@ C13_EndedOnce     == ~g.kf => EndedOnceP(g, last.open)
 C13_Multi         == ~last.g.kf => MultiP(last.g, last.op, last.res, last.log)
 C13_NoUnackedDurable == NoUnackedDurableP(g, h.committed)
 C13_NotEndedTwice == NotEndedTwiceP(last.log)
+C13_StopAcksByCommit == StopAcksByCommitP(last.g, last.op, last.res, last.log)
 =============================================================================
